@@ -31,7 +31,9 @@ class C08(AstKindProp):
         irj = G.gen_ir(r, rich=r.random() < 0.6, p_typ=1.0 if full else 0.85, p_doc=1.0 if full else 0.85)
         if kind == "argparse":
             irj = C04.restrict(self, irj, r)
-        opts = {"emit_default_doc": r.random() < 0.7}
+        opts = {"emit_default_doc": r.random() < 0.7, "word_wrap": r.random() < 0.35}
+        if opts["word_wrap"] and r.random() < 0.8:
+            irj = G.lengthen(r, irj)
         if kind in ("function", "method"):
             opts.update({"inline_types": r.random() < 0.5, "emit_as_kwonlyargs": r.random() < 0.5, "indent_level": r.choice([0, 1, 2]),
                          "function_type": r.choice(["static", "self", "cls"]) if kind == "function" else "self"})  # fmt: skip
@@ -56,6 +58,8 @@ class C08(AstKindProp):
         mk = model_kind(k, bool(o.get("inline_types")))
         arg = k == "argparse"
         res = []
+        if self.wrap_class(c):
+            return res  # wrapping acted on a numpydoc entry / :type line: recorded C18 findings, not modelled
         if k in ("rest", "numpydoc", "google") and not o.get("emit_default_doc", True):
             return res  # without default text the defaults are, by construction, not in the docstring
         try:
@@ -91,7 +95,29 @@ class C08(AstKindProp):
 
         return code_breaks_stability(c["kind"], is_return, typ, code, c["opts"].get("emit_default_doc", True))
 
+    def wrap_class(self, c):
+        """the C18 findings, recognised on the artefact itself: did wrapping act on a numpydoc entry / a :type line"""
+        k, o = c["kind"], c["opts"]
+        if not o.get("word_wrap") or k not in ("numpydoc", "rest", "function", "method"):
+            return None
+        try:
+            ir = self.py_ir(c["ir"])
+            wt = kinds.to_source(k, kinds.emit(k, ir, o))
+            ut = kinds.to_source(k, kinds.emit(k, ir, dict(o, word_wrap=False)))
+        except Exception:
+            return None
+        if k == "numpydoc":
+            return "C18-D20-numpydoc-continuation-lines-lose-their-indent" if wt != ut else None
+        for line in wt.split("\n"):
+            ls = line.strip()
+            if (ls.startswith(":type ") or ls.startswith(":rtype:")) and not ls.endswith("```"):
+                return "C18-D20-wrapped-type-line-keeps-the-line-break"
+        return None
+
     def classify(self, c, fl):
+        w = self.wrap_class(c)
+        if w:
+            return w
         k = c["kind"]
         if k in ("rest", "numpydoc", "google"):
             from ..astkinds import code_breaks_stability, is_code
